@@ -98,6 +98,7 @@ var guardSites = []guardSite{
 	gs("ontid_revoke_bad_v0", fOwner, "revokePkByIndex", "", 0, []string{"index", "n"}, "index", "index", "len(owners)", "n"),
 	gs("ontid_revoke_bad_v1", fOwner, "revokePkByIndex", "", 0, []string{"index", "n"}, "index", "index", "len(publicKeys)", "n"),
 	gs("ontid_getpk_bad", fOwner, "getPk", "", 1, []string{"index", "n"}, "index", "index", "len(publicKeys)", "n"),
+	gs("gov_config_k_zero", "smartcontract/service/native/governance/governance.go", "UpdateConfig", "", 0, []string{"k"}, "configuration.K", "k"),
 	gs("ontfs_proof_short", "smartcontract/service/native/ontfs/node_business.go", "CheckPdpProve", "", 0, []string{"n"}, "len(proofData)", "n", "pdp.VersionLength", "PDP_VERSION_LENGTH"),
 	gs("ontfs_blocknum_zero", "smartcontract/service/native/ontfs/pdp/pdp.go", "GenChallenge", "", 0, []string{"n"}, "fileBlockNum", "n"),
 	gs("ontfs_merkle_short", "smartcontract/service/native/ontfs/pdp/merkle_pdp/merkle_pdp.go", "VerifyMerkleProof", "", 0, []string{"n"}, "proofLength", "n"),
